@@ -15,7 +15,30 @@ func queueInv(k keeperT, ctx sdk.Context, id []byte, rc types.RequestContext, h 
 	hasE := k.HasRequestBatchExpiration(ctx, id)
 	hasN := k.HasNewRequestBatch(ctx, id)
 	one := vf.Implies(rc.State == types.RUNNING, hasE != hasN)
-	return vf.All(one, vf.Implies(hasE, vf.And(hadExp, expiryAt(k, ctx, id, expH))), vf.Implies(hasN && hadNew, newBatchAt(k, ctx, id, newH)))
+	// each queue holds exactly as many entries of the context as its pointer says (0 or 1), at the expected height
+	nE, nN := queued(ctx, types.ExpiredRequestBatchKey, id), queued(ctx, types.NewRequestBatchKey, id)
+	return vf.All(one, nE == b2i(hasE), nN == b2i(hasN), vf.Implies(hasE, vf.And(hadExp, expiryAt(k, ctx, id, expH))), vf.Implies(hasN && hadNew, newBatchAt(k, ctx, id, newH)))
+}
+
+// queued counts the entries of a queue (expiry 0x09 / new batch 0x10) that refer to the context
+func queued(ctx sdk.Context, prefix []byte, id []byte) int {
+	n := 0
+	it := sdk.KVStorePrefixIterator(vf.Store(ctx), prefix)
+	for ; it.Valid(); it.Next() {
+		key := it.Key()
+		if len(key) == 1+8+len(id) && string(key[9:]) == string(id) {
+			n++
+		}
+	}
+	it.Close()
+	return n
+}
+
+func b2i(b bool) int {
+	if b {
+		return 1
+	}
+	return 0
 }
 
 const (
@@ -103,7 +126,7 @@ func sceneCtxMsg(op int, o ReqOpts) {
 	chk("C05 C01", vf.All(vf.Balance(signer).Equal(balSigner0), vf.ModuleBalance(types.RequestAccName).Equal(esc0), vf.Balance(s.Consumer).Equal(s.BalC0)), "no-money-moves")
 	chk("C09", immutableCtx(pre, post), "ctx-immutable-fields")
 	chk("C09 C10", post.BatchCounter == pre.BatchCounter, "counter-untouched-by-messages")
-	chk("C12", vf.All(post.BatchState == pre.BatchState, post.BatchRequestCount == pre.BatchRequestCount, post.BatchResponseCount == pre.BatchResponseCount), "batch-bookkeeping-untouched")
+	chk("C12 C08 C02 C01 C16 C04", vf.All(post.BatchState == pre.BatchState, post.BatchRequestCount == pre.BatchRequestCount, post.BatchResponseCount == pre.BatchResponseCount, post.BatchResponseThreshold == pre.BatchResponseThreshold), "batch-bookkeeping-untouched")
 	nreq, nresp, nact := countRecords(k, ctx, id, pre.BatchCounter)
 	nact0 := 0
 	for j := 0; j < s.M; j++ {
@@ -117,7 +140,7 @@ func sceneCtxMsg(op int, o ReqOpts) {
 	if err != nil {
 		vf.Reach("rejected")
 		chk("C05 C09", vf.All(post.State == pre.State, post.Timeout == pre.Timeout, post.RepeatedFrequency == pre.RepeatedFrequency, post.RepeatedTotal == pre.RepeatedTotal), "rejected-changes-nothing")
-		chk("C11", vf.All(k.HasRequestBatchExpiration(ctx, id) == hadExp, k.HasNewRequestBatch(ctx, id) == hadNew), "rejected-queues-unchanged")
+		chk("C11 C10 C08 C02 C01 C12 C16", vf.All(k.HasRequestBatchExpiration(ctx, id) == hadExp, k.HasNewRequestBatch(ctx, id) == hadNew), "rejected-queues-unchanged")
 		return
 	}
 	vf.Reach("accepted")
@@ -125,22 +148,22 @@ func sceneCtxMsg(op int, o ReqOpts) {
 	switch op {
 	case opPause:
 		chk("C09", vf.All(pre.Repeated, pre.State == types.RUNNING, post.State == types.PAUSED), "pause-only-repeated-running")
-		chk("C11", vf.All(k.HasRequestBatchExpiration(ctx, id) == hadExp, k.HasNewRequestBatch(ctx, id) == hadNew), "pause-keeps-queues")
+		chk("C11 C10 C08 C02 C01 C12 C16", vf.All(k.HasRequestBatchExpiration(ctx, id) == hadExp, k.HasNewRequestBatch(ctx, id) == hadNew), "pause-keeps-queues")
 	case opStart:
 		chk("C09", vf.All(pre.State == types.PAUSED, post.State == types.RUNNING), "start-only-paused")
 		if sit == 2 {
-			chk("C11 C10", newBatchAt(k, ctx, id, s.H), "start-of-idle-context-queues-batch-now")
+			chk("C11 C10 C08 C02 C01 C12 C16", newBatchAt(k, ctx, id, s.H), "start-of-idle-context-queues-batch-now")
 		} else {
-			chk("C11", vf.All(k.HasRequestBatchExpiration(ctx, id) == hadExp, k.HasNewRequestBatch(ctx, id) == hadNew), "start-keeps-pending-event")
+			chk("C11 C10 C08 C02 C01 C12 C16", vf.All(k.HasRequestBatchExpiration(ctx, id) == hadExp, k.HasNewRequestBatch(ctx, id) == hadNew), "start-keeps-pending-event")
 		}
 	case opKill:
 		chk("C09", vf.All(pre.Repeated, post.State == types.COMPLETED), "kill-only-repeated")
-		chk("C11", vf.All(k.HasRequestBatchExpiration(ctx, id) == hadExp, k.HasNewRequestBatch(ctx, id) == hadNew), "kill-keeps-queues")
+		chk("C11 C10 C08 C02 C01 C12 C16", vf.All(k.HasRequestBatchExpiration(ctx, id) == hadExp, k.HasNewRequestBatch(ctx, id) == hadNew), "kill-keeps-queues")
 	case opUpdate:
 		chk("C09", vf.All(pre.State != types.COMPLETED, post.State == pre.State), "update-never-on-completed")
-		chk("C10", vf.Implies(post.Repeated, post.RepeatedFrequency >= uint64(post.Timeout)), "frequency-at-least-timeout")
+		chk("C10 C11 C08", vf.Implies(post.Repeated, post.RepeatedFrequency >= uint64(post.Timeout)), "frequency-at-least-timeout")
 		chk("C08", vf.All(post.Timeout >= 1, post.Timeout <= k.MaxRequestTimeout(ctx)), "timeout-within-bounds")
-		chk("C11", vf.All(k.HasRequestBatchExpiration(ctx, id) == hadExp, k.HasNewRequestBatch(ctx, id) == hadNew), "update-keeps-queues")
+		chk("C11 C10 C08 C02 C01 C12 C16", vf.All(k.HasRequestBatchExpiration(ctx, id) == hadExp, k.HasNewRequestBatch(ctx, id) == hadNew), "update-keeps-queues")
 		chk("C06", vf.All(len(post.Providers) >= 1, post.ServiceFeeCap.AmountOf(Denom).IsPositive()), "providers-and-cap-stay-valid")
 		if post.RepeatedTotal > maxTotal {
 			maxTotal = post.RepeatedTotal
@@ -148,7 +171,7 @@ func sceneCtxMsg(op int, o ReqOpts) {
 		unbounded = vf.Or(unbounded, post.RepeatedTotal == -1)
 	}
 	// Q after the step
-	chk("C11", queueInv(k, ctx, id, post, s.H, s.ExpH, func() int64 {
+	chk("C11 C10 C08 C02 C01 C12 C16", queueInv(k, ctx, id, post, s.H, s.ExpH, func() int64 {
 		if sit == 2 {
 			return s.H
 		}
